@@ -130,6 +130,12 @@ def build_corpus(tier):
     rej(reg, "register_callback: sandbox reference of another sandbox type", pre=cb(TI, "rlbox_sandbox<%s>&, %s a" % (other, TI)))
     rej(reg, "register_callback: tainted_volatile parameter", pre=cb(TI, "SB<@N>&, tainted_volatile<int, %s>& a" % Mn))
     rej(reg, "register_callback: parameter tainted for another sandbox type (used with invoke)" if False else "register_callback: hint return type", pre=cb("tainted_boolean_hint", "SB<@N>&"))
+    # wrappers of ANOTHER sandbox type in the callback's signature (the sandbox reference itself is the right one)
+    rej(reg, "register_callback: parameter tainted for another sandbox type", pre=cb(TI, "SB<@N>&, tainted<int, %s> a" % other))
+    rej(reg, "register_callback: pointer parameter tainted for another sandbox type", pre=cb(TI, "SB<@N>&, " + TI + " a, tainted<int*, %s> b" % other))
+    rej(reg, "register_callback: return value tainted for another sandbox type", pre=cb("tainted<int*, %s>" % other, "SB<@N>&, " + TI + " a"))
+    rej(reg, "register_callback: tainted_opaque parameter of another sandbox type", pre=cb(TI, "SB<@N>&, tainted_opaque<long, %s> a" % other))
+    rej(reg, "register_callback: void callback with a parameter tainted for another sandbox type", pre=cb("void", "SB<@N>&, tainted<char*, %s> a" % other))
     acc(reg, "control: register_callback tainted(sandbox&, tainted)", pre=cb(TI, "SB<@N>&, " + TI + " a"))
     acc(reg, "control: register_callback void(sandbox&)", pre=cb("void", "SB<@N>&"))
     acc(reg, "control: register_callback with tainted_opaque parameter and return", pre=cb("tainted_opaque<int*, %s>" % Mn, "SB<@N>&, tainted_opaque<long, %s> a, tainted<char*, %s> b" % (Mn, Mn)))
